@@ -97,8 +97,15 @@ def gen(ctx):
     return g
 
 
+def child(ctx, script, args, timeout=120):
+    """fresh interpreter started with -S (no site, no .pth pre-imports), PYTHONPATH = tree under test +
+    site-packages (explicit), cwd = scratch dir"""
+    cmd = [vlib.PY] + translate.START_FLAGS + ["-c", script] + list(args)
+    return vlib.sh(cmd, timeout=timeout, env=translate.child_env(vlib.impl_env(ctx.repo), ctx.repo), cwd=ctx.work)
+
+
 def cold(ctx, names):
-    rc, out = ctx.impl_python(COLD, None, 120, args=list(names))
+    rc, out = child(ctx, COLD, list(names), 120)
     m = re.search(r"^@@(.*)$", out, re.M)
     if not m:
         return {"res": [[names[0], False, "NoOutput", out[-300:], None]], "loaded": [], "crash": True}
@@ -153,6 +160,9 @@ def run(ctx):
     ctx.extra["external_modules_tracked"] = len(g["ext"])
     ctx.extra["waived"] = sorted(waived)
     ctx.extra["startup_tracked"] = g["startup"]
+    ctx.extra["interpreter_start"] = "%s %s -c ...  PYTHONPATH=<tree>:%s" % (
+        vlib.PY, " ".join(translate.START_FLAGS), translate.site_packages())
+    ctx.extra["host_had_imported_first"] = g["startup_all"]   # measured sys.modules before any ioflo import
 
     # -- implementation: every module alone, cold ----------------------------------------
     with ThreadPoolExecutor(16) as ex:
@@ -227,7 +237,7 @@ def run(ctx):
     bind = {(pk, nme): t for pk, nme, t in g["pkg_bindings"]}
 
     def attr_run(pk):
-        rc, out = ctx.impl_python(ATTR, None, 180, args=[pk] + subs_of[pk])
+        rc, out = child(ctx, ATTR, [pk] + subs_of[pk], 180)
         mm = re.search(r"^@@(.*)$", out, re.M)
         return json.loads(mm.group(1)) if mm else {"<package>": ["nooutput", out[-200:]]}
     with ThreadPoolExecutor(16) as ex:
@@ -286,7 +296,8 @@ def search(ctx):
         victims = roots[root]
         m, e = sorted(victims, key=lambda v: (v[0] != root, len(v[0]), v[0]))[0]
         return {"key": "cold-import:" + root,
-                "command": "cd / && PYTHONPATH=%s /venv/bin/python -c 'import %s'" % (ctx.repo, m),
+                "command": "cd / && PYTHONPATH=%s:%s /venv/bin/python %s -c 'import %s'" % (
+                    ctx.repo, translate.site_packages(), " ".join(translate.START_FLAGS), m),
                 "observed": {"exception": e[2], "message": e[3], "raised_at": e[4]},
                 "expected": "import succeeds in a fresh interpreter whose host program imported nothing",
                 "modules_failing_for_this_cause": len(victims),
@@ -298,7 +309,7 @@ def search(ctx):
             continue
         full = sh["package"] + "." + sh["submodule"]
         return {"key": key,
-                "command": "cd / && PYTHONPATH=%s /venv/bin/python -c \"from %s import %s as first; import %s, sys; "
+                "command": "cd / && PYTHONPATH=%s /venv/bin/python -S -c \"from %s import %s as first; import %s, sys; "
                            "assert first is sys.modules['%s'], first\"" % (ctx.repo, sh["package"], sh["submodule"],
                                                                          full, full),
                 "observed": "in a fresh interpreter `from %s import %s` returns %s; after `import %s` it returns the "
@@ -309,7 +320,8 @@ def search(ctx):
         e = r["res"][-1]
         if not e[1] and e[0] not in waived and root_module(ctx, e) not in waived:
             return {"key": "import-order:" + root_module(ctx, e),
-                    "command": "PYTHONPATH=%s /venv/bin/python -c 'import %s'" % (ctx.repo, ", ".join(l)),
+                    "command": "PYTHONPATH=%s:%s /venv/bin/python %s -c 'import %s'" % (
+                        ctx.repo, translate.site_packages(), " ".join(translate.START_FLAGS), ", ".join(l)),
                     "observed": {"failing": e[0], "exception": e[2], "message": e[3], "raised_at": e[4]},
                     "expected": "every module of the order imports (each imports alone)",
                     "contradicts": "C01.Props.order_independent"}
